@@ -171,6 +171,28 @@ fn main() {
             drop(repl);
             check(DROPS[0].load(SeqCst) == 1 && DROPS[2].load(SeqCst) == 1, "a value was not destroyed exactly once");
         }
+        "Arc::into_thin" => {
+            // a fat Arc whose recorded length (1) disagrees with its slice length (3): into_thin must refuse by
+            // panicking and still release that Arc properly
+            struct El(u8);
+            static EL_DROPS: AtomicUsize = AtomicUsize::new(0);
+            impl Drop for El {
+                fn drop(&mut self) {
+                    EL_DROPS.fetch_add(1, SeqCst);
+                }
+            }
+            let a = Arc::from_header_and_iter(HeaderWithLength::new(Canary(0), 1), vec![El(1), El(2), El(3)].into_iter());
+            let others: Vec<_> = (1..c).map(|_| a.clone()).collect();
+            let r = catch_unwind(AssertUnwindSafe(|| Arc::into_thin(a)));
+            check(r.is_err(), "into_thin accepted a mismatching recorded length");
+            if let Some(w) = others.first() {
+                check(Arc::count(w) == others.len(), "the refused Arc was not released (count not lowered by one)");
+                check(EL_DROPS.load(SeqCst) == 0 && DROPS[0].load(SeqCst) == 0, "destroyed while owners remain");
+            }
+            drop(others);
+            check(EL_DROPS.load(SeqCst) == 3, "the refused Arc was not released properly: not all slice elements were destroyed exactly once");
+            check(DROPS[0].load(SeqCst) == 1, "header not destroyed exactly once");
+        }
         _ => {
             println!("unknown api {api}");
             std::process::exit(3);
